@@ -1,10 +1,138 @@
-(* C06 — property theorems.  Only statements, [exact lemma] and Print Assumptions. *)
+(* C06 — property theorems.  Only statements, [exact lemma] and Print Assumptions.
+   Vocabulary (coq/C06/Model.v, Proofs.v, MapLemmas.v):
+     builder = association list tag -> bytes sorted by tag (the BTreeMap of FontBuilder);
+     pre m   = wf m (strictly ascending keys) /\ every tag is a u32 /\ len m <= 4095
+               /\ 12 + 16*len m + sum of round4(table lengths) < 2^32
+               — the size preconditions under which the real build() neither panics in
+               SearchRange::compute's u16 conversions nor overflows its u32 position;
+     build / font_ref_new / table_data / compute_checksum = models of FontBuilder::build,
+     FontRef::new, FontRef::table_data, read_fonts::tables::compute_checksum;
+     is_long_head t d = (t is 'head' and d has at least 12 bytes). *)
 From Coq Require Import ZArith List Sorted Permutation.
-From FV Require Import Lib.RustInt C06.Model C06.Checksum C06.BSearch C06.MapLemmas C06.Proofs.
+From FV Require Import Lib.RustInt C06.Model C06.Checksum C06.BSearch C06.MapLemmas C06.Proofs C06.Reader C06.FileSum C06.Final.
 Import ListNotations.
 Open Scope Z_scope.
 
-Theorem c06_build_defined : forall m, pre m -> build m = Some (file_of m).
-Proof. exact build_eq. Qed.
+(* the assembled font opens successfully *)
+Theorem c06_build_opens : forall m, pre m ->
+  exists file f, build m = Some file /\ font_ref_new file = Some f /\ fr_sfnt f = 65536.
+Proof. exact build_opens. Qed.
 
-Print Assumptions c06_build_defined.
+(* lists exactly those tags in ascending order; numTables and the binary-search fields *)
+Theorem c06_build_lists_exactly : forall m, pre m ->
+  exists file f, build m = Some file /\ font_ref_new file = Some f /\
+    fr_num f = len m /\ map r_tag (fr_records f) = keys m /\
+    StronglySorted Z.lt (map r_tag (fr_records f)) /\
+    (fr_srange f, fr_esel f, fr_rshift f) =
+      (if len m =? 0 then (16, 0, 0)
+       else (2 ^ Z.log2 (len m) * 16, Z.log2 (len m), len m * 16 - 2 ^ Z.log2 (len m) * 16)).
+Proof. exact build_lists_exactly. Qed.
+
+(* returns for each tag exactly the bytes supplied (head's checkSumAdjustment field excepted) *)
+Theorem c06_build_returns_tables : forall m t d, pre m -> lookup t m = Some d ->
+  exists file f r, build m = Some file /\ font_ref_new file = Some f /\ table_data f t = Some r /\
+    len r = len d /\
+    (is_long_head t d = false -> r = d) /\
+    (is_long_head t d = true -> firstn 8 r = firstn 8 d /\ skipn 12 r = skipn 12 d).
+Proof. exact build_returns_tables. Qed.
+
+Theorem c06_absent_tag_none : forall m t, pre m -> lookup t m = None ->
+  exists file f, build m = Some file /\ font_ref_new file = Some f /\ table_data f t = None.
+Proof. exact absent_tag_none. Qed.
+
+(* table data is 4-byte aligned and zero padded, inside the file, file length a multiple of 4;
+   every directory checksum equals the checksum of its table (head with its adjustment field zeroed) *)
+Theorem c06_build_aligned_padded_record_checksums : forall m, pre m ->
+  exists file f, build m = Some file /\ font_ref_new file = Some f /\
+    len file mod 4 = 0 /\
+    forall r, In r (fr_records f) ->
+      exists d tbl p q, lookup (r_tag r) m = Some d /\ table_data f (r_tag r) = Some tbl /\
+        r_cksum r = compute_checksum (zero_head (r_tag r) d) /\
+        r_length r = len d /\ r_offset r mod 4 = 0 /\ 12 + 16 * len m <= r_offset r /\
+        len p = r_offset r /\
+        file = p ++ tbl ++ repeat 0 (Z.to_nat (round4 (len d) - len d)) ++ q.
+Proof. exact build_aligned_padded_checksums. Qed.
+
+(* tables are laid out back to back (each padded to a multiple of 4) right after the directory, in
+   ordered_tags() order, which is sorted by the (group, recommended index, tag) key *)
+Theorem c06_build_layout : forall m, pre m ->
+  exists file dir adj, build m = Some file /\ len dir = 12 + 16 * len m /\
+    file = dir ++ flat_map (table_bytes adj) (ordered_entries m) /\
+    forall e, len (table_bytes adj e) = round4 (len (snd e)).
+Proof. exact build_layout. Qed.
+Theorem c06_ordered_entries_sorted : forall m,
+  StronglySorted (fun a b => key_leb (sort_key (recommended_order m) (fst a))
+                                     (sort_key (recommended_order m) (fst b)) = true)
+                 (ordered_entries m).
+Proof. exact ordered_entries_sorted. Qed.
+Theorem c06_ordered_entries_perm : forall m, Permutation m (ordered_entries m).
+Proof. exact ordered_entries_perm. Qed.
+
+(* with a head table of at least 12 bytes the checksum of the whole file is 0xB1B0AFBA *)
+Theorem c06_build_file_checksum : forall m d, pre m -> lookup TAG_head m = Some d -> 12 <= len d ->
+  exists file, build m = Some file /\ compute_checksum file = 2981146554.
+Proof. exact build_file_checksum. Qed.
+Theorem c06_checksum_app : forall l1 l2, aligned l1 ->
+  compute_checksum (l1 ++ l2) = wrap_u 32 (compute_checksum l1 + compute_checksum l2).
+Proof. exact checksum_app. Qed.
+Theorem c06_checksum_zero_pad : forall l,
+  compute_checksum (l ++ repeat 0 (Z.to_nat (padding_of l))) = compute_checksum l.
+Proof. exact checksum_zero_pad. Qed.
+
+(* the result does not depend on the order in which tags were added *)
+Theorem c06_build_insertion_order_irrelevant : forall ops1 ops2,
+  (forall t, lookup t (add_all ops1 []) = lookup t (add_all ops2 [])) ->
+  build (add_all ops1 []) = build (add_all ops2 []).
+Proof. exact build_insertion_order_irrelevant. Qed.
+Theorem c06_build_permuted_adds : forall ops1 ops2, Permutation ops1 ops2 -> NoDup (map fst ops1) ->
+  build (add_all ops1 []) = build (add_all ops2 []).
+Proof. exact build_permuted_adds. Qed.
+Theorem c06_add_raw_comm : forall t1 d1 t2 d2 m, wf m -> t1 <> t2 ->
+  add_raw t1 d1 (add_raw t2 d2 m) = add_raw t2 d2 (add_raw t1 d1 m).
+Proof. exact add_raw_comm. Qed.
+Theorem c06_add_all_is_apply_ops : forall ops m,
+  fold_left apply_op (map (fun o => (0, fst o, snd o)) ops) (Some m) = Some (add_all ops m).
+Proof. exact apply_ops_adds. Qed.
+Theorem c06_reachable_states_wf : forall ops m0 m, wf m0 -> fold_left apply_op ops (Some m0) = Some m -> wf m.
+Proof. exact apply_ops_wf. Qed.
+
+(* copying missing tables from an existing font never overrides a table already supplied *)
+Theorem c06_copy_missing_never_overrides : forall m src t d,
+  lookup t m = Some d -> lookup t (copy_missing_tables m src) = Some d.
+Proof. exact copy_missing_never_overrides. Qed.
+Theorem c06_copy_missing_copies_missing : forall src m t d, lookup t m = None ->
+  In t (map r_tag (fr_records src)) -> table_data src t = Some d ->
+  lookup t (copy_missing_tables m src) = Some d.
+Proof. exact copy_missing_copies. Qed.
+Theorem c06_copy_then_build_returns_supplied : forall m src t d,
+  pre (copy_missing_tables m src) -> lookup t m = Some d ->
+  exists file f r, build (copy_missing_tables m src) = Some file /\ font_ref_new file = Some f /\
+    table_data f t = Some r /\ len r = len d /\
+    (is_long_head t d = false -> r = d) /\
+    (is_long_head t d = true -> firstn 8 r = firstn 8 d /\ skipn 12 r = skipn 12 d).
+Proof. exact copy_then_build_returns_supplied. Qed.
+
+(* the bound on the number of tables in [pre] is sharp: from 4096 tables on build() panics *)
+Theorem c06_build_precondition_sharp : forall m, 4096 <= len m -> build m = None.
+Proof. exact build_too_many. Qed.
+
+Print Assumptions c06_build_opens.
+Print Assumptions c06_build_lists_exactly.
+Print Assumptions c06_build_returns_tables.
+Print Assumptions c06_absent_tag_none.
+Print Assumptions c06_build_aligned_padded_record_checksums.
+Print Assumptions c06_build_layout.
+Print Assumptions c06_ordered_entries_sorted.
+Print Assumptions c06_ordered_entries_perm.
+Print Assumptions c06_build_file_checksum.
+Print Assumptions c06_checksum_app.
+Print Assumptions c06_checksum_zero_pad.
+Print Assumptions c06_build_insertion_order_irrelevant.
+Print Assumptions c06_build_permuted_adds.
+Print Assumptions c06_add_raw_comm.
+Print Assumptions c06_add_all_is_apply_ops.
+Print Assumptions c06_reachable_states_wf.
+Print Assumptions c06_copy_missing_never_overrides.
+Print Assumptions c06_copy_missing_copies_missing.
+Print Assumptions c06_copy_then_build_returns_supplied.
+Print Assumptions c06_build_precondition_sharp.
